@@ -7,7 +7,8 @@
    digest of two nodes. *)
 From Coq Require Import Lia.
 From MV Require Import Base.Prelude Base.SymHash C09.StmTree C09.Mmr
-  C09.StmProofs C09.StmComplete C09.StmPath C09.MmrProofs C09.MmrComplete C09.Corollaries.
+  C09.StmProofs C09.StmComplete C09.StmPath C09.MmrProofs C09.MmrComplete C09.Corollaries
+  C09.RawLeaf C09.RawLeafProofs C09.MmrInj.
 Open Scope N_scope.
 
 (* ------------------------------------------------------------------ STM batch path *)
@@ -113,6 +114,47 @@ Theorem C09_ckb_verify_alone_refuted :
   mk_contains dup_witness [FAKE] = true /\ ~ In FAKE L5 /\ mk_verify dup_witness = false.
 Proof. exact ckb_alone_unsound. Qed.
 
+(* ------------------------------------------------------------------ raw sibling leaves (known finding
+   C09-raw-leaf-boundary).  The MMR theorems above are about the ideal merge, injective in the
+   pair of children.  The code hashes the concatenation and pushes leaves raw, so for two raw
+   sibling leaves only their concatenation is committed.  [mk_verify_b] / [mk_contains_b]
+   (RawLeaf.v) are the byte-faithful verdicts the correspondence run compares with the code. *)
+
+(* full statement refuted on the byte-faithful model: committed ["ab";"c"], a proof that verifies
+   against the committed root and contains "a", which is no committed leaf *)
+Theorem C09_refuted_raw_leaf_boundary :
+  (forall l, In l RL_xs -> atom l) /\ mmr_root RL_xs = Some (p_root RL_witness) /\
+  mk_verify_b RL_witness = true /\ mk_contains_b RL_witness [RL_x] = true /\
+  atom RL_x /\ ~ In RL_x RL_xs /\ mk_verify RL_witness = false.
+Proof. exact raw_leaf_boundary_refuted. Qed.
+
+(* the class in general: moving the boundary between two raw siblings keeps the parent *)
+Theorem C09_raw_pair_collision : forall a b a' b', a ++ b = a' ++ b' ->
+  norm (Mrg (BLit a) (BLit b)) = norm (Mrg (BLit a') (BLit b')).
+Proof. exact raw_pair_collision. Qed.
+
+(* outside the class: with the boundary fixed (left parts of equal length, e.g. leaves of one
+   fixed length) the byte-level parent determines both raw children, and a raw leaf next to a
+   digest is determined too: there the ideal merge is exact *)
+Theorem C09_raw_pair_inj_same_len : forall a b a' b', length a = length a' ->
+  norm (Mrg (BLit a) (BLit b)) = norm (Mrg (BLit a') (BLit b')) -> a = a' /\ b = b'.
+Proof. exact raw_pair_inj_same_len. Qed.
+
+Theorem C09_raw_digest_pair_inj : forall a g xs a' g' xs',
+  norm (Mrg (BLit a) (BHash g xs)) = norm (Mrg (BLit a') (BHash g' xs')) ->
+  a = a' /\ norm (BHash g xs) = norm (BHash g' xs').
+Proof. exact raw_digest_pair_inj. Qed.
+
+(* the byte-faithful verifier accepts everything the ideal one accepts, and is the ideal one on
+   every proof whose computed root is separated from the stated root by [norm] *)
+Theorem C09_bytes_accepts_ideal : forall p, mk_verify p = true -> mk_verify_b p = true.
+Proof. exact mk_verify_b_of. Qed.
+
+Theorem C09_bytes_is_ideal_when_separated : forall p r,
+  calc_root (p_size p) (p_leaves p) (p_items p) = Ok r ->
+  (norm r = norm (p_root p) -> r = p_root p) -> ckb_verify_b p = ckb_verify p.
+Proof. exact ckb_verify_b_ideal. Qed.
+
 (* ------------------------------------------------------------------ MKMapProof *)
 
 Theorem C09_map_sound : forall p x, map_verify p = true -> map_contains p x = true ->
@@ -142,6 +184,28 @@ Theorem C09_mmr_complete : forall n sel, (1 <= n <= 12)%nat -> In sel (sublists 
   complete_at n sel = true.
 Proof. exact mmr_complete_bounded. Qed.
 
+(* ------------------------------------------------------------------ the MMR root determines the leaf list
+   Unbounded (any number of leaves below 2^63, so that the u64 sizes and the fuel of the
+   transcription suffice): the root computed by MKTree::new + compute_root exists for every
+   non-empty list and two lists of atoms with the same root are the same list.  Ideal merge
+   (pair-injective); at byte level raw leaves of different lengths are excepted, see
+   C09_refuted_raw_root_collision. *)
+Theorem C09_mmr_root_some : forall xs, xs <> [] -> N.of_nat (length xs) < 2^63 ->
+  exists r, mmr_root xs = Some r.
+Proof. exact mmr_root_some. Qed.
+
+Theorem C09_mmr_root_inj : forall xs ys : list bt,
+  (forall l, In l xs -> atom l) -> (forall l, In l ys -> atom l) ->
+  N.of_nat (length xs) < 2^63 -> N.of_nat (length ys) < 2^63 ->
+  mmr_root xs = mmr_root ys -> mmr_root xs <> None -> xs = ys.
+Proof. exact mmr_root_inj. Qed.
+
+(* byte level: ["ab";"c"] and ["a";"bc"] are different committed lists with one root *)
+Theorem C09_refuted_raw_root_collision :
+  mmr_root [BLit [97; 98]; BLit [99]] <> mmr_root [BLit [97]; BLit [98; 99]] /\
+  option_map norm (mmr_root [BLit [97; 98]; BLit [99]]) = option_map norm (mmr_root [BLit [97]; BLit [98; 99]]).
+Proof. exact raw_leaf_root_collision. Qed.
+
 (* ------------------------------------------------------------------ non-vacuity *)
 Definition ex_L : list bt := [BLit [1; 1]; BLit [2; 2]; BLit [3; 3]].
 Example C09_ex_stm :
@@ -150,6 +214,10 @@ Example C09_ex_stm :
      ver_bpath (mt_root (mk_tree ex_L)) 3 [BLit [1; 1]; BLit [9; 9]] vals [0; 2] = Ok false /\
      ver_bpath (mt_root (mk_tree ex_L)) 3 [BLit [1; 1]; BLit [3; 3]] vals [0; 1] = Ok false).
 Proof. eexists. vm_compute. repeat split. Qed.
+
+Example C09_ex_root_inj : exists r, mmr_root L5 = Some r /\ (forall l, In l L5 -> atom l) /\ N.of_nat (length L5) < 2^63.
+Proof. eexists. split; [vm_compute; reflexivity|]. split; [|vm_compute; reflexivity].
+  intros l Hl. unfold L5 in Hl. apply in_map_iff in Hl. destruct Hl as [i [<- _]]. apply atom_BLit. Qed.
 
 Example C09_ex_mmr :
   match mk_compute_proof L5 [1; 2] with
